@@ -142,7 +142,9 @@ impl<'r> Gen<'r> {
             }
             Cat::ValueEnum => {
                 let e = &s.enums[&k];
-                let w = *self.rng.pick(&e.numbers);
+                // a third of the picks come from the eight lowest numbers (the core, most widely used enumerants:
+                // Shader / Kernel / Linkage, Import / Export, ...), so that a given well-known enumerant is common
+                let w = if self.rng.chance(1, 3) { e.numbers[self.rng.usize_below(e.numbers.len().min(8))] } else { *self.rng.pick(&e.numbers) };
                 ops.push(MOp::W(k, w));
                 for p in s.params_of(k, w) {
                     self.gen_variant(p, ops);
@@ -314,6 +316,12 @@ impl<'r> Gen<'r> {
             let w = *self.rng.pick(&[8u32, 16, 32, 32, 64, 64, 7, 128]);
             ops[0] = MOp::W(s.k_lit32, w);
             groups[0].items[0][0] = MOp::W(s.k_lit32, w);
+            if g.name == "TypeInt" && self.rng.chance(3, 4) {
+                // signedness is 0 / 1 in practice
+                let sg = self.rng.below(2) as u32;
+                ops[1] = MOp::W(s.k_lit32, sg);
+                groups[1].items[0][0] = MOp::W(s.k_lit32, sg);
+            }
         }
         self.last_groups = groups;
         let inst = MInst { opcode, rtype, rid, ops };
@@ -379,9 +387,14 @@ pub fn gen_stream(rng: &mut Rng, cfg: ProdCfg) -> Stream {
     let ctx_dependent = cfg.ctx_dependent;
     let spec_ops = cfg.spec_ops;
     let major = *rng.pick(&[1u8, 1, 1, 0, 2, 255]);
-    let minor = if rng.chance(1, 6) { *rng.pick(&[15u8, 16, 17, 31, 32, 128, 255]) } else { rng.below(7) as u8 };
+    let minor = if rng.chance(1, 6) { *rng.pick(&[15u8, 16, 17, 31, 32, 99, 99, 128, 255]) } else { rng.below(7) as u8 };
     let version = version_word(major, minor);
-    let generator = rng.word();
+    // generator word: registered tool ids (upper half 0..=45) with small tool versions, boundary words, or anything
+    let generator = match rng.below(4) {
+        0 => rng.word(),
+        1 => *rng.pick(&[0u32, 0xFFFF_FFFF, 0x0006_000e, 0x000f_0000, 0x0008_000b, 0x0007_0000]),
+        _ => ((rng.below(46) as u32) << 16) | if rng.chance(1, 2) { 0 } else { rng.below(64) as u32 },
+    };
     let schema = if rng.chance(1, 8) { rng.word() } else { 0 };
     let mut g = Gen::new(rng, cfg);
     let mut insts: Vec<MInst> = vec![];
